@@ -31,7 +31,7 @@ def _list_result(flagname):
 for _p, _f in (("reactants", "has_reactants"), ("products", "has_products")):
     REG.add(Contract("cobra/core/reaction.py", f"Reaction.{_p}@getter", "C18", [("self", TRef("Reaction"))],
                      [Case("any")], assumed=True, key=f"Reaction.{_p}@getter", result=_list_result(_f),
-                     note=f"returns the list of metabolites with negative/positive coefficient; non-empty iff the ghost flag {_f}"))
+                     note=f"returns the list of metabolites with negative/positive coefficient; non-empty iff the ghost flag {_f} (abstraction of the list PROVED on the real body in contracts/w_reaction_sides.py)"))
 REG.classes["Metabolite"] = []
 
 ZERO = VReal(0, 0)
